@@ -85,7 +85,11 @@ func mk[T any](typ, desc string, v T, eq func(a, b T) bool, facts func(v T) stri
 				default:
 					// the encoding must not depend on Go map iteration order: repeat a few times
 					stable := true
-					for k := 0; k < 4 && stable; k++ {
+					reps := 4
+					if len(re) > 3000 {
+						reps = 1 // large values (shards with Paillier keys): one more round trip is enough
+					}
+					for k := 0; k < reps && stable; k++ {
 						d3, e3 := serde.UnmarshalCBOR[T](re)
 						if e3 != nil {
 							stable = false
